@@ -474,15 +474,105 @@ def _all_cycles_pass(loop, node):
     return True
 
 
+def _kwargs_touched(fn, kw, call):
+    """Any use of the **kwargs dict other than passing it on in `call`."""
+    passed = [k.value for k in call.keywords if k.arg is None]
+    for s_ in fn.body:
+        for n in _walk_no_nested(s_):
+            if isinstance(n, ast.Name) and n.id == kw and not any(
+                    n is p_ for p_ in passed):
+                return True
+    return False
+
+
+def _forces_short_write(fnw):
+    """StringValue.write: one delegation super().write(addr, value, **K)
+    where K is the caller's keyword arguments with allow_short_write forced
+    to True (the forced entry wins over what the caller passed)."""
+    params = [a.arg for a in fnw.args.args]
+    kw = fnw.args.kwarg.arg if fnw.args.kwarg else None
+    if len(params) < 3 or kw is None:
+        return False
+    calls = [n for n in ast.walk(fnw) if isinstance(n, ast.Call) and unparse(
+        n.func) in ("super().write", "super(StringValue, cls).write")]
+    if len(calls) != 1:
+        return False
+    c = calls[0]
+    if [unparse(a) for a in c.args] != params[1:3]:
+        return False
+    # the delegation's result is what the method returns / delegates to
+    okret = any((isinstance(s_, ast.Return) and s_.value is c) or (
+        isinstance(s_, ast.Return) and isinstance(s_.value, ast.YieldFrom)
+        and s_.value.value is c) or (isinstance(s_, ast.Expr) and isinstance(
+            s_.value, ast.YieldFrom) and s_.value.value is c)
+        for s_ in ast.walk(fnw))
+    if not okret:
+        return False
+
+    def true(e):
+        return isinstance(e, ast.Constant) and e.value is True
+    K = "allow_short_write"
+    star = [k.value for k in c.keywords if k.arg is None]
+    named = [k.arg for k in c.keywords if k.arg is not None]
+    if named or len(star) != 1:
+        return False
+    m = star[0]
+    # stores into the kwargs dict before the call
+    forced_before = False
+    for s_ in fnw.body:
+        if any(n is c for n in ast.walk(s_)):
+            break
+        t = unparse(s_)
+        if t in ("%s['%s'] = True" % (kw, K),
+                 "%s.update(%s=True)" % (kw, K),
+                 "%s.update({'%s': True})" % (kw, K),
+                 "%s |= {'%s': True}" % (kw, K)):
+            forced_before = True
+        elif any(isinstance(n, ast.Name) and n.id == kw
+                 for n in ast.walk(s_)):
+            forced_before = False      # something else done to the dict
+    if isinstance(m, ast.Name) and m.id == kw:
+        return forced_before
+    if isinstance(m, ast.Dict):
+        # {**kwargs, K: True}: the last entry for a key wins
+        ents = list(zip(m.keys, m.values))
+        if not ents:
+            return False
+        lk, lv = ents[-1]
+        rest = ents[:-1]
+        return isinstance(lk, ast.Constant) and lk.value == K and true(lv) \
+            and len(rest) == 1 and rest[0][0] is None and unparse(
+                rest[0][1]) == kw
+    if isinstance(m, ast.Call) and unparse(m.func) == "dict" and len(
+            m.args) == 1 and unparse(m.args[0]) == kw and len(
+                m.keywords) == 1 and m.keywords[0].arg == K and true(
+                    m.keywords[0].value):
+        return True
+    if isinstance(m, ast.BinOp) and isinstance(m.op, ast.BitOr) and unparse(
+            m.left) == kw and unparse(m.right) == "{'%s': True}" % K:
+        return True
+    return False
+
+
 def _check_write(run, repo, world, mod, sel):
     fn, cfg, ys, Q = method_cfg(world, MV, "write")
     # raw = cls.value_to_raw(value) before yield from cls.write_raw(addr,
     # raw, **kwargs)
-    body = [s for s in fn.body if not (isinstance(s, ast.Expr) and isinstance(
-        s.value, ast.Constant))]
-    ok = len(body) == 2 and unparse(body[0]) == \
-        "raw = cls.value_to_raw(value)" and unparse(body[1]) == \
-        "yield from cls.write_raw(addr, raw, **kwargs)"
+    from .. import astq
+    params = [a.arg for a in fn.args.args]
+    kw = fn.args.kwarg.arg if fn.args.kwarg else None
+    sus = [n for s_ in fn.body for n in _walk_no_nested(s_)
+           if isinstance(n, (ast.Yield, ast.YieldFrom, ast.Await))]
+    ok = False
+    if len(sus) == 1 and isinstance(sus[0], ast.YieldFrom) and isinstance(
+            sus[0].value, ast.Call) and len(params) >= 3 and kw:
+        c = sus[0].value
+        kws = [(k.arg, unparse(k.value)) for k in c.keywords]
+        ok = unparse(c.func) == "cls.write_raw" and len(c.args) == 2 and \
+            unparse(c.args[0]) == params[1] and astq.canon(
+                fn, c.args[1], calls=True) == "cls.value_to_raw(%s)" \
+            % params[2] and kws == [(None, kw)] and not _kwargs_touched(
+                fn, kw, c)
     run.ob("R-MEMW-PRE", Q + "#convert-then-write", ok,
            "write must convert with value_to_raw (which may refuse) before "
            "delegating everything to write_raw", where(mod, fn))
@@ -604,10 +694,7 @@ def _check_value_to_raw(run, repo, world, mod):
            "exactly one NUL when shorter: " + "; ".join(why), where(mod, fn),
            sample={"rule": "R-MEMW-RAW", "paths": [repr(p_) for p_ in ps]})
     fnw = sv.methods["write"][1]
-    okw = any(unparse(s) == "kwargs['allow_short_write'] = True"
-              for s in fnw.body) and any(
-        "super().write(addr, value, **kwargs)" in unparse(s)
-        for s in fnw.body)
+    okw = _forces_short_write(fnw)
     run.ob("R-MEMW-RAW", LOC + ".StringValue.write#short-write", okw,
            "StringValue.write must force allow_short_write and delegate",
            where(mod, fnw))
